@@ -31,9 +31,12 @@ What the check does:
      one version per transaction in the repaired design); several goroutines on the cursors of ONE
      transaction (db.Iterator: "multiple iterators can be used concurrently").
 
-The model in force follows known_findings.json (never the tree): a defect listed `known` is
-modelled as coded, otherwise repaired.  VERIF_G12_ONLY=tlc,probes,replay,conc restricts a run and
-VERIF_G12_ASSUME_KNOWN=<key,key,...> treats keys as listed (both development aids)."""
+The model in force follows known_findings.json (never the tree): a defect listed `known` is modelled
+as coded, otherwise repaired; a listed finding that no longer reproduces is a NOTE.  A replay
+divergence that has the shape of one of the confirmed defects carries that defect's key (the same key
+family as its probe), every other one a key built from the call, its context and the difference.
+VERIF_G12_ONLY=tlc,probes,replay,conc restricts a run and VERIF_G12_ASSUME_KNOWN=<key,key,...> treats
+keys as listed (both development aids)."""
 import json
 import os
 import re
@@ -46,7 +49,7 @@ KEYS_FULL = [[0], [1], [1, 0], [1, 255], [2], [255, 255]]
 
 # defect switch -> the key family its probe / replay divergence carries
 DEFECTS = {
-    "FixFirst": "remotedb:iterator:first:kills-stream",
+    "FixFirst": "remotedb:first-unsupported:*",
     "FixBounds": "remotedb:iterator:bounds-ignored:*",
     "FixSnapshot": "remotedb:tx:not-point-in-time:*",
     "FixLeak": "remotedb:stream-leak:*",
@@ -102,11 +105,11 @@ def tlc_phase(ctx):
             ("RemoteDB_raw_quick.cfg", "MCRemoteDB.tla", "repaired: raw streams, every request shape"),
             ("RemoteDB_two_quick.cfg", "MCRemoteDB.tla", "repaired: two streams, isolation"),
             ("RemoteDB_db_quick.cfg", "MCRemoteDB.tla", "repaired: DB-level calls, loss of the connection"),
-            ("RemoteDB_ascoded_tx.cfg", "MCRemoteDB.tla", "as coded: what holds in spite of the defects (transaction)"),
-            ("RemoteDB_ascoded_db.cfg", "MCRemoteDB.tla", "as coded: DB-level calls"),
+            ("RemoteDB_ascoded_db.cfg", "MCRemoteDB.tla", "as coded: DB-level calls, a transaction, loss of the connection"),
             ("RemoteDBConc_quick.cfg", "RemoteDBConc.tla", "repaired: two threads on one transaction, exchanges split")]
     if t:
-        hold += [("RemoteDB_tx_thorough.cfg", "MCRemoteDB.tla", "repaired: one transaction, two writes"),
+        hold += [("RemoteDB_ascoded_tx.cfg", "MCRemoteDB.tla", "as coded: what holds in spite of the defects (transaction, two cursors)"),
+                 ("RemoteDB_tx_thorough.cfg", "MCRemoteDB.tla", "repaired: one transaction, two writes"),
                  ("RemoteDB_raw_thorough.cfg", "MCRemoteDB.tla", "repaired: raw streams, three cursors"),
                  ("RemoteDB_two_thorough.cfg", "MCRemoteDB.tla", "repaired: two streams, DB-level calls"),
                  ("RemoteDB_ascoded_raw.cfg", "MCRemoteDB.tla", "as coded: raw streams"),
@@ -176,24 +179,42 @@ def absorb(ctx, res, test):
 
 
 def bindings(ctx, binary, only, thorough, tlc_job):
-    # the model in force: a defect listed known is modelled as coded, otherwise repaired
+    # The model in force follows known_findings.json (never the tree): a defect listed known is modelled as coded,
+    # otherwise repaired. The probes decide nothing about it; they tell whether a listed finding still reproduces
+    # (if not: a NOTE, and the switch is modelled repaired) and report the defects under their canonical keys.
     fix = {sw: not known(ctx, fam) for sw, fam in DEFECTS.items()}
     if "probes" in only:
         res = ctx.run_engine(binary, "TestRemoteProbes", {"keys": KEYS_FULL}, timeout=300)
         absorb(ctx, res, "TestRemoteProbes")
         keys = {d["key"] for d in res.get("divergences") or []}
         for sw, fam in DEFECTS.items():
-            if sw == "FixMutex":
-                continue   # reproduced by the concurrent round
-            if not fix[sw] and not any(vlib.key_matches(fam, k) for k in keys):
+            if sw != "FixMutex" and not fix[sw] and not any(vlib.key_matches(fam, k) for k in keys):
                 print("NOTE: property=G12 known finding [%s] did not reproduce on this tree: modelled as repaired" % fam, flush=True)
                 fix[sw] = True
         for k, v in sorted((res.get("stats") or {}).get("observations", {}).items()):
             print("OBSERVATION property=G12 (stated limit, not a verdict) %s: %s" % (k, v), flush=True)
+    if "conc" in only:
+        # several goroutines on the cursors of ONE transaction. As coded this is a misuse of the gRPC stream
+        # (concurrent SendMsg / RecvMsg): it may also take the engine process down, which then IS the reproduction.
+        payload = {"fix": {"mutex": fix["FixMutex"]}, "shared_rounds": 40 if thorough else 12, "goroutines": 6}
+        try:
+            res = ctx.run_engine(binary, "TestRemoteSharedTx", payload, timeout=600)
+            absorb(ctx, res, "TestRemoteSharedTx")
+            seen = any(vlib.key_matches(DEFECTS["FixMutex"], d["key"]) for d in res.get("divergences") or [])
+        except vlib.Broken as e:
+            if "panic" not in str(e) and "fatal error" not in str(e):
+                raise
+            seen = True
+            ctx.report("remotedb:concurrent:iterators-of-one-tx:process-crash",
+                       "several goroutines on the cursors of one remote transaction crashed the process: %s" % str(e)[-300:],
+                       {"property": "G12", "engine": FAM, "test": "TestRemoteSharedTx", "seed": ctx.seed, "input": payload})
+        if not fix["FixMutex"] and not seen:
+            print("NOTE: property=G12 known finding [%s] (a race) did not reproduce in this run" % DEFECTS["FixMutex"], flush=True)
     ctx.coverage["model"] = " ".join("%s=%s" % (k, v) for k, v in sorted(fix.items()))
     fixjson = {SWITCH_JSON[k]: v for k, v in fix.items()}
     sw = {k: tla_bool(v) for k, v in fix.items() if k != "FixMutex"}
 
+    nviol = len(ctx.violations)
     if "replay" in only:
         nb = 0
         plans = [  # (cfg constants, tlc runs quick / thorough)
@@ -213,7 +234,7 @@ def bindings(ctx, binary, only, thorough, tlc_job):
                    "TestRemoteReplay")
         ctx.coverage["behaviours_replayed"] = nb
 
-    diverged = bool(ctx.violations)
+    diverged = len(ctx.violations) > nviol
     if "conc" in only and diverged:
         # the sequential bindings already diverged from the model in force: free-running rounds would only
         # report consequences of the same differences (and may block on them)
@@ -224,17 +245,6 @@ def bindings(ctx, binary, only, thorough, tlc_job):
                                     "shared_rounds": 6 if thorough else 2}, timeout=900),
                "TestRemoteConcurrent")
 
-        # several goroutines on the cursors of ONE transaction. As coded this is a misuse of the gRPC stream
-        # (concurrent SendMsg / RecvMsg): it may also take the engine process down, which then IS the reproduction.
-        payload = {"fix": fixjson, "shared_rounds": 6 if thorough else 3, "goroutines": 6}
-        try:
-            absorb(ctx, ctx.run_engine(binary, "TestRemoteSharedTx", payload, timeout=300), "TestRemoteSharedTx")
-        except vlib.Broken as e:
-            if fix["FixMutex"] or "panic" not in str(e) and "fatal error" not in str(e):
-                raise
-            ctx.report("remotedb:concurrent:iterators-of-one-tx:process-crash",
-                       "several goroutines on the cursors of one remote transaction crashed the process: %s" % str(e)[-300:],
-                       {"property": "G12", "engine": FAM, "test": "TestRemoteSharedTx", "seed": ctx.seed, "input": payload})
 
     if tlc_job is not None:
         tlc_job.result()
